@@ -210,10 +210,9 @@ func superviseTemplates(rec *ev.Recorder, known map[string]bool) {
 			rec.Discard("excluded-by-finding:" + id)
 			continue
 		}
-		if c.Kind == "recur" && c.Tmpl == "call-table-chain" && !rec.Thorough() {
-			// spins without consuming CPU budget for longer than any timeout
-			// (see report): it would cost the whole time limit and be discarded
-			rec.Discard("skipped-in-quick: call-table-chain never finishes (inconclusive by the timeout rule)")
+		if tm := findRecurTmpl(c.Tmpl); c.Kind == "recur" && tm != nil && tm.hangs != "" && !rec.Thorough() {
+			// it would cost the whole time limit and then be discarded as inconclusive
+			rec.Discard("skipped-in-quick (never finishes; inconclusive by the timeout rule): " + c.Tmpl + ": " + tm.hangs)
 			continue
 		}
 		mine = append(mine, c)
